@@ -168,13 +168,20 @@ CLAIMED["C19"] = (
     "DESIGN.md section 2, C19",
 )
 CLAIMED["C04"] = (
-    "exhaustive abstract evaluation of the label comparison over order types; path rule (exchange => sign) on the phased sort; must-pass-through rule for resolve_combined_oddpos",
-    "Static: FermionicOperator.__lt__/__eq__ are a strict total order for every totally ordered label type (all 13 order types "
-    "of three labels x 8 direction assignments); labels are used only through comparisons; on every branch path of the phased "
-    "sort an exchange costs exactly one sign, a conjugate pair costs a sign iff ket-then-bra, duplicates raise, the cross-over "
-    "sign has the documented condition, and the phase reaches the array only through phase_global." + PARTIAL_NOTE,
-    "Associativity of values and signs over whole networks is not decided.",
-    "DESIGN.md section 2, C04",
+    "exhaustive abstract evaluation of the label comparison over order types; path rule (exchange => sign) on the phased sort; "
+    "must-pass-through rule for resolve_combined_oddpos; abstract interpretation of two- and three-tensor networks along different routes "
+    "(signed monomials)",
+    "Complete over its finite domain: FermionicOperator.__lt__/__eq__ are a strict total order for every totally ordered label type (all "
+    "13 order types of three labels x 8 direction assignments); labels are used only through comparisons. All paths: on every branch "
+    "path of the phased sort an exchange costs exactly one sign, a conjugate pair costs a sign iff ket-then-bra, duplicates raise, the "
+    "cross-over sign has the documented condition, the phase reaches the array only through phase_global, and every fermionic "
+    "contraction result passes through the label resolution before it is returned. Bounded (R04.5-R04.7, ~650 operand pairs and ~130 "
+    "three-tensor networks over Z2 and U1, + Z2Z2, U1U1 thorough; every assignment of even / odd charges; distinct labels; pending "
+    "signs): result blocks reduced to signed monomials of input blocks agree - with total charge, indices and remaining labels - "
+    "between tensordot(a,b) and the transposed tensordot(b,a), between listings of the contracted pairs, with operands transposed "
+    "beforehand, and between (A.B).C and A.(B.C) for chains and triangles (scalar results included). " + BOUNDED,
+    "Networks of four tensors and 'several indices at once vs one after another' are not enumerated; values are not computed.",
+    "DESIGN.md sections 2 and 16, C04",
 )
 CLAIMED["C18"] = (
     "path rule (exchange => sign) on the operator sort; exhaustive abstract evaluation of short operator strings against the canonical anticommutation relations; table checks of bases and charge maps",
